@@ -350,6 +350,24 @@ pub mod simsync {
             });
             Ok(MutexGuard { m: self, live: r.is_ok() })
         }
+        /// `Mutex::try_lock`: a scheduling point that is always enabled; takes the mutex iff it is free at that moment
+        pub fn try_lock(&self) -> TryLockResult<MutexGuard<'_, T>> {
+            let (s, me) = ctx();
+            let r = s.yield_op(me, Pending::Atom, false, |g| {
+                if g.owner.is_none() {
+                    g.owner = Some(me);
+                    g.trace.push(format!("L{me}"));
+                    true
+                } else {
+                    false
+                }
+            });
+            match r {
+                Ok(true) => Ok(MutexGuard { m: self, live: true }),
+                Ok(false) => Err(TryLockError::WouldBlock),
+                Err(_) => Ok(MutexGuard { m: self, live: false }),
+            }
+        }
     }
 
     impl<T: Observable> Deref for MutexGuard<'_, T> {
